@@ -2,7 +2,7 @@
    the decryption function = the standard's decryption on the parsed components, round trip. *)
 From Coq Require Import List NArith ZArith Znumtheory Bool Lia Arith ZifyNat.
 From GmsmVerif Require Import Lib.Outcome EC.ECAffine EC.SM2Curve EC.ECAffineProofs SM3.SM3Spec
-     SM2.SM2Bytes SM2.SM2BytesProofs SM2.SM2Spec SM2.DER SM2.DERProofs SM2.SM2Model SM2.SM2SignProofs SM2.SM2Group.
+     SM2.SM2Bytes SM2.SM2BytesProofs SM2.SM2Spec SM2.DER SM2.DERProofs SM2.SM2Model SM2.SM2SignProofs SM2.SM2GroupMin.
 Import ListNotations.
 Open Scope Z_scope.
 
@@ -432,9 +432,32 @@ Proof.
   rewrite HM, HM', <- Hl in E. apply (xor_bytes_inj _ _ _ Hl) in E; [exact E|rewrite kdf_spec_length; lia].
 Qed.
 
+(* the first two components parsed from an honest ciphertext are the 32-byte coordinates of C1 = [k]G *)
+Lemma encrypt_c1 PB M k o c :
+  encrypt_with_nonce PB M k o = Some c ->
+  let '(x, y, _, _) := split_ciphertext o c in
+  x = os2ip (fe_bytes (x_of (sm2_base_mul k))) /\ y = os2ip (fe_bytes (y_of (sm2_base_mul k))).
+Proof.
+  unfold encrypt_with_nonce.
+  set (x2 := fe_bytes (x_of (sm2_mul k PB))). set (y2 := fe_bytes (y_of (sm2_mul k PB))).
+  set (t := kdf_spec (x2 ++ y2) (length M)). set (X := fe_bytes (x_of (sm2_base_mul k))). set (Y := fe_bytes (y_of (sm2_base_mul k))).
+  destruct (all_zero t); [discriminate|]. intros H. apply some_inj in H.
+  assert (HX : length X = 32%nat) by apply fe_length. assert (HY : length Y = 32%nat) by apply fe_length.
+  assert (S1 : forall r, slice (4%N :: X ++ Y ++ r) 1 33 = X).
+  { intros r. unfold slice. cbn [skipn Nat.sub]. apply firstn_app_l, HX. }
+  assert (S2 : forall r, slice (4%N :: X ++ Y ++ r) 33 65 = Y).
+  { intros r. unfold slice. change 33%nat with (S 32). rewrite skipn_S_cons. rewrite (skipn_app_l X) by exact HX.
+    replace (65 - S 32)%nat with 32%nat by lia. apply firstn_app_l, HY. }
+  unfold split_ciphertext, point_bytes in *. fold X Y in H.
+  destruct o; subst c; cbn [app]; rewrite <- !app_assoc; rewrite S1, S2; split; reflexivity.
+Qed.
+
 (* ---------- round trip (needs the group laws) ------------------------------------------------------------ *)
 Section RoundTrip.
-  Variable F : SM2Facts.
+  Variable Hp : P_prime.
+  Variable Hassoc : Add_assoc.
+  Variable HnG : G_order_divides_n.
+  Variable Hfin : G_multiples_finite.
 
   Lemma valid_coords P : sm2_valid P = true -> coords_ok P.
   Proof.
@@ -456,11 +479,11 @@ Section RoundTrip.
     set (t := kdf_spec (x2 ++ y2) (length M)) in *.
     destruct (all_zero t) eqn:Ez; [discriminate|].
     (* C1 = [k]G is a finite valid point *)
-    pose proof (sm2_kG_finite F k ltac:(lia)) as Hfin.
-    assert (Hv1 : sm2_valid (sm2_base_mul k) = true) by (apply (mul_valid F); [apply G_valid|lia]).
+    pose proof (Hfin k ltac:(lia)) as Hfink.
+    assert (Hv1 : sm2_valid (sm2_base_mul k) = true) by (apply (mul_valid Hp); [apply G_valid|lia]).
     change (sm2_base_mul k) with (sm2_mul k sm2_G) in *.
     destruct (sm2_mul k sm2_G) as [[x1 y1]|] eqn:EC1; [|contradiction].
-    pose proof (valid_coords _ Hv1) as [Hx1 Hy1]. pose proof p_lt_2_256 as Hp.
+    pose proof (valid_coords _ Hv1) as [Hx1 Hy1]. pose proof p_lt_2_256 as Hp256.
     assert (HX : length (fe_bytes x1) = 32%nat) by apply fe_length.
     assert (HY : length (fe_bytes y1) = 32%nat) by apply fe_length.
     assert (Hox : os2ip (fe_bytes x1) = x1) by (apply os2ip_i2osp_small; change (256 ^ Z.of_nat 32) with (2 ^ 256); lia).
@@ -469,7 +492,7 @@ Section RoundTrip.
     (* the shared point: [d][k]G = [k][d]G *)
     assert (HS : sm2_mul d (Some (x1, y1)) = S).
     { unfold S. rewrite <- EC1. change (sm2_base_mul d) with (sm2_mul d sm2_G).
-      rewrite !(mul_mul F) by (try apply G_valid; lia). rewrite Z.mul_comm. reflexivity. }
+      rewrite !(mul_mul Hp Hassoc) by (try apply G_valid; lia). rewrite Z.mul_comm. reflexivity. }
     unfold point_bytes, x_of, y_of in H. cbn [encode_point fst snd] in H.
     unfold split_ciphertext.
     assert (Hspec : decrypt_spec d x1 y1 (sm3 (x2 ++ M ++ y2)) (xor_bytes M t) = Some M).
@@ -491,8 +514,8 @@ Section RoundTrip.
   Lemma ScalarBaseMult_decode d : 1 <= d < sm2_n ->
     go_decode (ScalarBaseMult d) = sm2_base_mul d /\ 0 <= fst (ScalarBaseMult d) < sm2_p /\ 0 <= snd (ScalarBaseMult d) < sm2_p.
   Proof.
-    intros Hd. pose proof (ScalarBaseMult_point F d Hd) as HP.
-    assert (Hv : sm2_valid (Some (ScalarBaseMult d)) = true) by (rewrite HP; apply (mul_valid F); [apply G_valid|lia]).
+    intros Hd. pose proof (ScalarBaseMult_point Hfin d Hd) as HP.
+    assert (Hv : sm2_valid (Some (ScalarBaseMult d)) = true) by (rewrite HP; apply (mul_valid Hp); [apply G_valid|lia]).
     split; [rewrite (go_decode_valid _ Hv); exact HP|].
     destruct (ScalarBaseMult d) as [x y]. apply valid_coords in Hv. exact Hv.
   Qed.
